@@ -19,7 +19,10 @@ change it: it re-evaluates the current references.
   3. after a `tick`, if every awaitable of the NEWEST evaluation of `p`'s current reference has
      completed, `p` holds its last result;
   4. after a `tick` with every awaitable of every task completed, `syncing` and `async_refs` are empty;
-  5. `bump` only ever re-evaluates current references.
+  5. `bump` only ever re-evaluates current references;
+  6. a value the parameter rejects (`rej`) is never stored; an evaluation ends at its first rejected
+     result (for 3.: the value to hold is the last result BEFORE it, if any; for 4.: its later
+     awaitables do not count as pending).
 -/
 import ParamVerif.Async.ModelExt
 import ParamVerif.Async.Spec
@@ -67,15 +70,26 @@ def OSt.doneVal (o : OSt) (f : Fid) : Option Int := (o.done.find? (fun e => e.1 
 
 def OSt.kindOf (o : OSt) (r : Nat) : Option Kind := (o.kinds.find? (fun e => e.1 = r)).map (·.2)
 
-/-- all awaitables of task `t` (an evaluation of reference `r`) have completed -/
-def OSt.taskDone (o : OSt) (t r : Nat) : Bool :=
+/-- walk the awaitables of task `t` in order up to the first rejected result:
+(has every awaitable it can reach completed?, the last accepted result before the end) -/
+def OSt.walk (o : OSt) (rej : Int → Bool) (t : Nat) : Nat → Nat → Option Int → Bool × Option Int
+  | 0, _, acc => (true, acc)
+  | n + 1, i, acc =>
+    match o.doneVal (t, i) with
+    | none => (false, acc)
+    | some v => if rej v then (true, acc) else o.walk rej t n (i + 1) (some v)
+
+/-- every awaitable task `t` (an evaluation of reference `r`) can reach has completed -/
+def OSt.taskDone (o : OSt) (rej : Int → Bool) (t r : Nat) : Bool :=
   match o.kindOf r with
-  | some k => (List.range k.nFuts).all fun i => (o.doneVal (t, i)).isSome
+  | some k => (o.walk rej t k.nFuts 0 none).1
   | none => false
 
 /-- one watcher delivery -/
-def stepLog (hook : Hook) (o : OSt) (pv : Nat × Int) : Except String OSt := do
+def stepLog (e : Env) (o : OSt) (pv : Nat × Int) : Except String OSt := do
   let (p, v) := pv
+  let hook := e.hook
+  if e.rej v then throw s!"parameter {p} set to {v}, a value its validation rejects"
   let o1 ← match o.latOf p with
     | .never => throw s!"parameter {p} set to {v} although nothing was assigned to it"
     | .plain w =>
@@ -95,7 +109,7 @@ def stepLog (hook : Hook) (o : OSt) (pv : Nat × Int) : Except String OSt := do
   | some (a, b, w) => if p = a then pure { (o1.setLat b (.plain w)) with pend := o1.pend ++ [(b, w)] } else pure o1
   | none => pure o1
 
-def checkEventH (np : Nat) (hook : Hook) (o : OSt) (ev : EventH) (obs : ObsH) : Except String OSt := do
+def checkEventH (np : Nat) (e : Env) (o : OSt) (ev : EventH) (obs : ObsH) : Except String OSt := do
   -- the schedule
   let o1 ← match ev with
     | .assign p (.plain v) _ =>
@@ -117,7 +131,7 @@ def checkEventH (np : Nat) (hook : Hook) (o : OSt) (ev : EventH) (obs : ObsH) : 
       if obs.spawns != [] then throw "a task was scheduled by a completion"
       pure (if (o.doneVal (t, k)).isSome then o else { o with done := o.done ++ [((t, k), v)] })
   -- the deliveries, in order
-  let o2 ← obs.log.foldlM (stepLog hook) o1
+  let o2 ← obs.log.foldlM (stepLog e) o1
   if let (q, u) :: _ := o2.pend then throw s!"the plain assignment {q} := {u} was not delivered to the watcher"
   -- the state at the end of the event
   for p in List.range np do
@@ -133,24 +147,23 @@ def checkEventH (np : Nat) (hook : Hook) (o : OSt) (ev : EventH) (obs : ObsH) : 
         let newest := (o2.tasks.filter fun (_, q, r') => q = p && r' = r).foldl (fun m (t, _, _) => max m t) r
         match o2.kindOf r with
         | some k =>
-          if k.nFuts > 0 && o2.taskDone newest r then
-            match o2.doneVal (newest, k.nFuts - 1) with
-            | some w =>
-              if obs.vals[p]? != some w then
-                throw s!"parameter {p} holds {obs.vals[p]?.getD 0} when quiescent, the result of the newest evaluation (task {newest}) of its current reference is {w}"
-            | none => pure ()
+          match o2.walk e.rej newest k.nFuts 0 none with
+          | (true, some w) =>
+            if obs.vals[p]? != some w then
+              throw s!"parameter {p} holds {obs.vals[p]?.getD 0} when quiescent, the last accepted result of the newest evaluation (task {newest}) of its current reference is {w}"
+          | _ => pure ()
         | none => pure ()
-  if ev == .tick && o2.tasks.all (fun (t, _, r) => o2.taskDone t r) then
+  if ev == .tick && o2.tasks.all (fun (t, _, r) => o2.taskDone e.rej t r) then
     if obs.sync != [] then throw s!"syncing = {obs.sync} although every awaitable has completed and the loop is idle"
     if obs.async != [] then throw s!"async_refs still has {obs.async} although every awaitable has completed"
   pure o2
 
 /-- (number of events checked, first failure) -/
-def specHistoryH (np : Nat) (hook : Hook) : OSt → List (EventH × ObsH) → Nat → Nat × Option String
+def specHistoryH (np : Nat) (e : Env) : OSt → List (EventH × ObsH) → Nat → Nat × Option String
   | _, [], n => (n, none)
   | o, (ev, obs) :: rest, n =>
-    match checkEventH np hook o ev obs with
+    match checkEventH np e o ev obs with
     | .error m => (n, some s!"event {n} ({repr ev}): {m}")
-    | .ok o' => specHistoryH np hook o' rest (n + 1)
+    | .ok o' => specHistoryH np e o' rest (n + 1)
 
 end ParamVerif.Async
